@@ -959,6 +959,17 @@ func provenance(p *Prog, v ssa.Value, depth int, seen map[ssa.Value]bool) []prov
 		if f := x.Common().StaticCallee(); f != nil && p.InModule(f) && recvTypeName(f) == "Node" && f.Name() == "path" {
 			return []provLeaf{{"node.path", describeValue(x.Common().Args[0]) + ".path()"}}
 		}
+		if f := x.Common().StaticCallee(); f != nil && p.InModule(f) && f.Blocks != nil && !callsItself(f) {
+			var out []provLeaf
+			allInstrs(f, func(in ssa.Instruction) {
+				if r, ok := in.(*ssa.Return); ok && len(rr(r)) > 0 {
+					out = append(out, provenance(p, rr(r)[0], depth+1, seen)...)
+				}
+			})
+			if len(out) > 0 {
+				return out
+			}
+		}
 		return []provLeaf{{"unknown", calleeString(x.Common())}}
 	case *ssa.UnOp:
 		if x.Op == token.MUL {
@@ -1041,6 +1052,27 @@ func joinedUnderTarget(p *Prog, v ssa.Value, depth int) (bool, string) {
 				}
 			}
 			return true, ""
+		}
+		if f := x.Common().StaticCallee(); f != nil && p.InModule(f) && f.Blocks != nil && !callsItself(f) && depth < 5 {
+			// a helper that builds the path: every return must be Join(targetDir, …) of its arguments
+			okAll, n := true, 0
+			why := ""
+			allInstrs(f, func(in ssa.Instruction) {
+				r, isRet := in.(*ssa.Return)
+				if !isRet || len(rr(r)) == 0 {
+					return
+				}
+				n++
+				if ok, w2 := joinedUnderTarget(p, rr(r)[0], depth+1); !ok {
+					okAll, why = false, w2
+				}
+			})
+			if okAll && n > 0 {
+				return true, ""
+			}
+			if why != "" {
+				return false, why + " (in helper " + relFunc(f) + ")"
+			}
 		}
 		return false, "path is produced by " + calleeString(x.Common()) + ", not by filepath.Join(targetDir, …)"
 	}
